@@ -7,8 +7,10 @@ import (
 	"fmt"
 	"io"
 	"os"
+	"os/exec"
 	"runtime"
 	"strconv"
+	"strings"
 	"sync"
 
 	"flamingo.me/pugtemplate/pugjs"
@@ -28,6 +30,15 @@ import (
 //      renders (holds inside function providers, inside the functions, and
 //      between Render returning and the caller reading the result),
 //   3. renders every job alone again (the engine must be as it was).
+// A goroutine may render its job several times per round (reps), each time with a freshly
+// built data value; the observation keeps, per goroutine, the DISTINCT results it got.
+//
+// COLD cases (cold = true) have no step 1 in the process that runs the storm: whatever the
+// engine, or a library below it, sets up on first use (of a Go type, of a template, of a
+// helper) is then first used by several renders at once.  The harness re-executes itself
+// twice for such a case: one fresh process renders every job alone (the baseline `seq`),
+// another fresh process runs steps 2 and 3 only.  See also c08data.go: struct data values
+// get Go types that did not exist before the round, in warm and in cold cases.
 // Built with -race the Go race detector watches all of it; the reports go to
 // the file named by PV_RACE_LOG (GORACE log_path) and are attributed to the
 // case during which the file grew.  Nothing is judged here except the
@@ -47,13 +58,24 @@ type c08Case struct {
 	Debug     bool              `json:"debug"`
 	RateLimit int               `json:"ratelimit"`
 	Stagger   uint64            `json:"stagger"` // seed of the stagger plans; 0 = no deliberate staggering
+	Reps      int               `json:"reps"`    // renders per goroutine and round (0 = 1)
+	Cold      bool              `json:"cold"`    // no sequential renders before the storm in the storm's process
+	Phase     string            `json:"phase,omitempty"` // set by the harness itself for its children: "seq" | "conc"
+}
+
+// c08Distinct is one of the distinct results a goroutine got in a round, and how often.
+type c08Distinct struct {
+	renderResult
+	N int `json:"n"`
 }
 
 type c08Obs struct {
 	Load       string           `json:"load"`
 	Seq        []renderResult   `json:"seq"`
 	SeqAfter   []renderResult   `json:"seq_after"`
-	Conc       [][]renderResult `json:"conc"` // [round][call]
+	Conc       [][][]c08Distinct `json:"conc"` // [round][call][distinct result]
+	Crashed    bool             `json:"crashed,omitempty"` // a child process of a cold case died
+	Stderr     string           `json:"stderr,omitempty"`
 	Races      int              `json:"races"`
 	RaceReport string           `json:"race_report,omitempty"`
 	GoEqual    bool             `json:"go_equal"`
@@ -93,6 +115,18 @@ func raceLog() []byte {
 	return b
 }
 
+// raceSeen: has the race detector written anything since the log had `before` bytes?  Once it has, the case
+// is decided; the storm is cut short (no further repetitions, no further rounds) because every further
+// report costs the detector tens of milliseconds.
+func raceSeen(before int) bool {
+	prefix := os.Getenv("PV_RACE_LOG")
+	if prefix == "" {
+		return false
+	}
+	fi, err := os.Stat(prefix + "." + strconv.Itoa(os.Getpid()))
+	return err == nil && fi.Size() > int64(before)
+}
+
 func sameResult(a, b renderResult) bool { return a.Class == b.Class && a.Out == b.Out }
 
 // c08Render is one call: Engine.Render with the call's own context, then (after the "read"
@@ -114,6 +148,14 @@ func c08Render(e *pugjs.Engine, ctx context.Context, s *c08Script, name string, 
 }
 
 func runC08(c c08Case) (obs c08Obs, err error) {
+	for _, k := range c.Calls {
+		if k < 0 || k >= len(c.Jobs) {
+			return obs, fmt.Errorf("call names job %d of %d", k, len(c.Jobs))
+		}
+	}
+	if c.Cold && c.Phase == "" && !c.Debug {
+		return runC08Cold(c)
+	}
 	dir, err := os.MkdirTemp("", "pv08")
 	if err != nil {
 		return obs, err
@@ -125,11 +167,6 @@ func runC08(c c08Case) (obs c08Obs, err error) {
 	}
 	if err := writeTree(dir, files); err != nil {
 		return obs, err
-	}
-	for _, k := range c.Calls {
-		if k < 0 || k >= len(c.Jobs) {
-			return obs, fmt.Errorf("call names job %d of %d", k, len(c.Jobs))
-		}
 	}
 	obs.RaceBuild = raceEnabled
 	obs.Procs = runtime.GOMAXPROCS(0)
@@ -150,8 +187,9 @@ func runC08(c c08Case) (obs c08Obs, err error) {
 	}
 	seqAll := func() ([]renderResult, error) {
 		res := make([]renderResult, len(c.Jobs))
+		env := c08NewEnv(0)
 		for j, job := range c.Jobs {
-			d, err := buildData(job.Data)
+			d, err := c08Build(job.Data, env)
 			if err != nil {
 				return nil, err
 			}
@@ -160,20 +198,28 @@ func runC08(c c08Case) (obs c08Obs, err error) {
 		}
 		return res, nil
 	}
-	if obs.Seq, err = seqAll(); err != nil {
-		return obs, err
+	if c.Phase != "conc" { // the storm's process of a cold case starts with the storm
+		if obs.Seq, err = seqAll(); err != nil {
+			return obs, err
+		}
 	}
 	obs.GoEqual = true
 	n := len(c.Calls)
-	for r := 0; r < c.Rounds; r++ {
-		res := make([]renderResult, n)
+	reps := c.Reps
+	if reps < 1 {
+		reps = 1
+	}
+	for r := 0; r < c.Rounds && c.Phase != "seq" && !(r > 0 && raceSeen(before)); r++ {
+		res := make([][]c08Distinct, n)
 		datas := make([]interface{}, n)
 		ctxs := make([]context.Context, n)
 		scripts := make([]*c08Script, n)
+		berr := make([]error, n)
 		meet := newC08Meet()
+		env := c08NewEnv(r + 1) // the round's struct types: new to the process
 		for g := 0; g < n; g++ {
 			// every call gets its own, freshly built data value and its own context
-			if datas[g], err = buildData(c.Jobs[c.Calls[g]].Data); err != nil {
+			if datas[g], err = c08Build(c.Jobs[c.Calls[g]].Data, env); err != nil {
 				return obs, err
 			}
 			var seed uint64
@@ -191,15 +237,39 @@ func runC08(c c08Case) (obs c08Obs, err error) {
 				defer done.Done()
 				ready.Done()
 				<-start
-				res[g] = c08Render(e, ctxs[g], scripts[g], names[c.Calls[g]], datas[g])
+				for k := 0; k < reps && !(k > 0 && raceSeen(before)); k++ {
+					d := datas[g]
+					if k > 0 { // a repetition renders a value of its own, too
+						if d, berr[g] = c08Build(c.Jobs[c.Calls[g]].Data, env); berr[g] != nil {
+							return
+						}
+					}
+					x := c08Render(e, ctxs[g], scripts[g], names[c.Calls[g]], d)
+					seen := false
+					for i := range res[g] {
+						if sameResult(res[g][i].renderResult, x) {
+							res[g][i].N++
+							seen = true
+							break
+						}
+					}
+					if !seen {
+						res[g] = append(res[g], c08Distinct{x, 1})
+					}
+				}
 			}(g)
 		}
 		ready.Wait()
 		close(start)
 		done.Wait()
 		for g := 0; g < n; g++ {
-			if !sameResult(res[g], obs.Seq[c.Calls[g]]) {
-				obs.GoEqual = false
+			if berr[g] != nil {
+				return obs, berr[g]
+			}
+			for _, x := range res[g] {
+				if obs.Seq != nil && !sameResult(x.renderResult, obs.Seq[c.Calls[g]]) {
+					obs.GoEqual = false
+				}
 			}
 		}
 		obs.Conc = append(obs.Conc, res)
@@ -211,11 +281,13 @@ func runC08(c c08Case) (obs c08Obs, err error) {
 			obs.Stagger.MaxInside = meet.st.MaxInside
 		}
 	}
-	if obs.SeqAfter, err = seqAll(); err != nil {
-		return obs, err
+	if c.Phase != "seq" {
+		if obs.SeqAfter, err = seqAll(); err != nil {
+			return obs, err
+		}
 	}
 	for j := range obs.Seq {
-		if !sameResult(obs.Seq[j], obs.SeqAfter[j]) {
+		if obs.SeqAfter != nil && !sameResult(obs.Seq[j], obs.SeqAfter[j]) {
 			obs.GoEqual = false
 		}
 	}
@@ -230,6 +302,82 @@ func runC08(c c08Case) (obs c08Obs, err error) {
 			rep = rep[:6000]
 		}
 		obs.RaceReport = string(rep)
+	}
+	return obs, nil
+}
+
+// runC08Cold: the baseline of a cold case comes from one fresh process, the storm (and the
+// renders alone after it) from another one; both are this binary, run on the one case.
+func runC08Cold(c c08Case) (obs c08Obs, err error) {
+	child := func(phase string) (o c08Obs, crashed bool, err error) {
+		cc := c
+		cc.Phase = phase
+		in, err := json.Marshal([]c08Case{cc})
+		if err != nil {
+			return o, false, err
+		}
+		exe, err := os.Executable()
+		if err != nil {
+			return o, false, err
+		}
+		cmd := exec.Command(exe, "C08")
+		// the race runtime sleeps 1 s at exit by default (to let other threads report); every goroutine of
+		// the child has been joined when it exits
+		cmd.Env = append(os.Environ(), "GORACE="+strings.TrimSpace(os.Getenv("GORACE")+" atexit_sleep_ms=0"))
+		cmd.Stdin = bytes.NewReader(in)
+		var stdout, stderr bytes.Buffer
+		cmd.Stdout, cmd.Stderr = &stdout, &stderr
+		runErr := cmd.Run()
+		var l []c08Obs
+		if runErr == nil && json.Unmarshal(stdout.Bytes(), &l) == nil && len(l) == 1 {
+			return l[0], false, nil
+		}
+		msg := stderr.String()
+		if strings.Contains(msg, "harness error") || strings.Contains(msg, "bad input") {
+			return o, false, fmt.Errorf("cold %s phase: %s", phase, msg)
+		}
+		// the process died (fatal error: concurrent map writes, ...): an observation, not a harness error
+		if len(msg) > 3000 {
+			msg = msg[len(msg)-3000:]
+		}
+		o.Crashed, o.Stderr = true, phase+": "+fmt.Sprint(runErr)+"\n"+msg
+		return o, true, nil
+	}
+	a, crashed, err := child("seq")
+	if err != nil {
+		return obs, err
+	}
+	obs = a
+	obs.RaceBuild, obs.Procs = raceEnabled, runtime.GOMAXPROCS(0)
+	if crashed || a.Load != clsOK {
+		return obs, nil
+	}
+	b, crashed, err := child("conc")
+	if err != nil {
+		return obs, err
+	}
+	if crashed {
+		obs.Crashed, obs.Stderr = true, b.Stderr
+		return obs, nil
+	}
+	obs.Load = b.Load
+	obs.Conc, obs.SeqAfter, obs.Stagger = b.Conc, b.SeqAfter, b.Stagger
+	obs.Races += b.Races
+	obs.RaceReport += b.RaceReport
+	obs.GoEqual = len(obs.SeqAfter) == len(obs.Seq)
+	for j := range obs.SeqAfter {
+		if j < len(obs.Seq) && !sameResult(obs.Seq[j], obs.SeqAfter[j]) {
+			obs.GoEqual = false
+		}
+	}
+	for _, round := range obs.Conc {
+		for g, ds := range round {
+			for _, x := range ds {
+				if !sameResult(x.renderResult, obs.Seq[c.Calls[g]]) {
+					obs.GoEqual = false
+				}
+			}
+		}
 	}
 	return obs, nil
 }
